@@ -23,6 +23,16 @@ from . import payload
 default_logger = logging.getLogger('engineio.client')
 
 
+class _ServerPayload(payload.Payload):
+    """A polling response from the server.
+
+    The limit on the number of packets in a payload protects servers from
+    misbehaving clients. A server returns everything it has queued in one
+    response, so the client does not apply that limit.
+    """
+    max_decode_packets = float('inf')
+
+
 class Client(base_client.BaseClient):
     """An Engine.IO client.
 
@@ -196,7 +206,7 @@ class Client(base_client.BaseClient):
                 'Unexpected status code {} in server response'.format(
                     r.status_code), arg)
         try:
-            p = payload.Payload(encoded_payload=r.content.decode('utf-8'))
+            p = _ServerPayload(encoded_payload=r.content.decode('utf-8'))
         except ValueError:
             raise exceptions.ConnectionError(
                 'Unexpected response from server') from None
@@ -481,7 +491,7 @@ class Client(base_client.BaseClient):
                 self.queue.put(None)
                 break
             try:
-                p = payload.Payload(encoded_payload=r.content.decode('utf-8'))
+                p = _ServerPayload(encoded_payload=r.content.decode('utf-8'))
             except ValueError:
                 self.logger.warning(
                     'Unexpected packet from server, aborting')
